@@ -15,7 +15,7 @@ type snap = {
   cb : n;
 }
 
-type nodeinfo = { self : id; has_cb : bool; pred : lpred }
+type nodeinfo = { self : id; has_cb : bool; pred : lpred; fdc : fdconfig }
 
 let parse_status (c : cursor) : status =
   let st = next_int c in
@@ -107,6 +107,9 @@ let infos : (int, nodeinfo) Hashtbl.t = Hashtbl.create 8
 let snaps : (int, snap) Hashtbl.t = Hashtbl.create 8
 let ledgers : (string, lwrite list) Hashtbl.t = Hashtbl.create 8  (* by owner id token *)
 let owner_hb : (string, n) Hashtbl.t = Hashtbl.create 8
+let now = ref BZ.zero
+(* per (node index, member): number of fresh heartbeat observations and instant of the last one *)
+let fresh : (int * string, int * BZ.t) Hashtbl.t = Hashtbl.create 16
 let weak_acceptance_seen = ref false
 let catchup_seen = ref false
 let fails : string list ref = ref []
@@ -114,6 +117,7 @@ let n_checks = ref 0
 
 let reset_case () =
   Hashtbl.reset infos; Hashtbl.reset snaps; Hashtbl.reset ledgers; Hashtbl.reset owner_hb;
+  Hashtbl.reset fresh; now := BZ.zero;
   weak_acceptance_seen := false; catchup_seen := false
 
 let flag (prop : string) (cls : string option) (what : string) =
@@ -273,9 +277,28 @@ let on_proc (idx : int) (msg : message) (obs : string) : unit =
                   "reply delta is not the version-prefix of the sender's stale entries (or names a scheduled member)"
             | None -> ())
        | None -> ());
+      (* fresh heartbeat evidence, as observable from the dumps: a stored non-zero heartbeat that
+         strictly grew *)
+      List.iter
+        (fun (i, c) ->
+          if not (id_eqb i info.self) then
+            match before with
+            | Some b -> (
+                match nm_get i b.nodes with
+                | Some cb when not (neq cb.c_hb N0) && nless cb.c_hb c.c_hb ->
+                    let k = (idx, token_of_id i) in
+                    let cnt = match Hashtbl.find_opt fresh k with Some (n, _) -> n | None -> 0 in
+                    Hashtbl.replace fresh k (cnt + 1, !now)
+                | _ -> ())
+            | None -> ())
+        o.snap.nodes;
       common_checks info before o.snap ~is_local:false;
       Hashtbl.replace snaps idx o.snap
   | _ -> ()
+
+let on_tick (obs : string) : unit =
+  let c = cursor_of_line obs in
+  (try expect c "now"; now := BZ.of_string (next c) with _ -> ())
 
 let on_eval (idx : int) (obs : string) : unit =
   match Hashtbl.find_opt infos idx, parse_obs obs with
@@ -295,6 +318,33 @@ let on_eval (idx : int) (obs : string) : unit =
       in
       check "C13" (c13_watch_ok expected s.watch)
         "watch channel value differs from {live members satisfying the predicate, with current max version}";
+      (* C10 / C11 on the implementation's verdicts *)
+      let fdc = info.fdc in
+      let zmax a b = if BZ.compare a b >= 0 then a else b in
+      let bound = BZ.mul (z_of_cz fdc.phi_num) (zmax (z_of_cz fdc.max_interval) (z_of_cz fdc.initial_interval)) in
+      (match before with
+       | Some b ->
+           List.iter
+             (fun (i, _) ->
+               if not (id_eqb i info.self) then begin
+                 let k = (idx, token_of_id i) in
+                 let cnt, last = match Hashtbl.find_opt fresh k with Some x -> x | None -> (0, BZ.zero) in
+                 let is_live = in_ids i s.live in
+                 let is_dead = in_ids i s.dead in
+                 let removed = nm_get i s.nodes = None in
+                 check "C11" (not (cnt < 2 && is_live))
+                   ("member " ^ token_of_id i ^ " reported live with fewer than two fresh heartbeat observations");
+                 check "C10" (not (cnt < 2 && is_live))
+                   ("member " ^ token_of_id i ^ " reported live with fewer than two usable heartbeat observations");
+                 let silent_too_long =
+                   cnt = 0 || BZ.compare (BZ.mul (BZ.sub !now last) (z_of_cz fdc.phi_den)) bound > 0 in
+                 if silent_too_long then
+                   check "C10" ((not is_live) && (is_dead || removed))
+                     ("member " ^ token_of_id i ^ " silent for longer than phi_threshold*max(max_interval,initial_interval) but not reported dead");
+                 if removed then Hashtbl.remove fresh k
+               end)
+             b.nodes
+       | None -> ());
       common_checks info before s ~is_local:false;
       Hashtbl.replace snaps idx s
   | _ -> ()
